@@ -9,45 +9,87 @@ import (
 	"verif/shim/vsched"
 )
 
+//go:norace
 func pt(addr interface{}) { vsched.Point(vsched.KAtomic, addr, nil) }
+
+//go:norace
 func ld(addr interface{}) { vsched.Point(vsched.KAtomicLoad, addr, nil) }
 
 type Value = atomic.Value
 
+//go:norace
 func AddInt32(addr *int32, delta int32) int32 { pt(addr); return atomic.AddInt32(addr, delta) }
+
+//go:norace
 func AddInt64(addr *int64, delta int64) int64 { pt(addr); return atomic.AddInt64(addr, delta) }
+
+//go:norace
 func AddUint32(addr *uint32, delta uint32) uint32 {
 	pt(addr)
 	return atomic.AddUint32(addr, delta)
 }
+
+//go:norace
 func AddUint64(addr *uint64, delta uint64) uint64 {
 	pt(addr)
 	return atomic.AddUint64(addr, delta)
 }
-func LoadInt32(addr *int32) int32              { ld(addr); return atomic.LoadInt32(addr) }
-func LoadInt64(addr *int64) int64              { ld(addr); return atomic.LoadInt64(addr) }
-func LoadUint32(addr *uint32) uint32           { ld(addr); return atomic.LoadUint32(addr) }
-func LoadUint64(addr *uint64) uint64           { ld(addr); return atomic.LoadUint64(addr) }
-func StoreInt32(addr *int32, v int32)          { pt(addr); atomic.StoreInt32(addr, v) }
-func StoreInt64(addr *int64, v int64)          { pt(addr); atomic.StoreInt64(addr, v) }
-func StoreUint32(addr *uint32, v uint32)       { pt(addr); atomic.StoreUint32(addr, v) }
-func StoreUint64(addr *uint64, v uint64)       { pt(addr); atomic.StoreUint64(addr, v) }
-func SwapInt32(addr *int32, v int32) int32     { pt(addr); return atomic.SwapInt32(addr, v) }
-func SwapInt64(addr *int64, v int64) int64     { pt(addr); return atomic.SwapInt64(addr, v) }
+
+//go:norace
+func LoadInt32(addr *int32) int32 { ld(addr); return atomic.LoadInt32(addr) }
+
+//go:norace
+func LoadInt64(addr *int64) int64 { ld(addr); return atomic.LoadInt64(addr) }
+
+//go:norace
+func LoadUint32(addr *uint32) uint32 { ld(addr); return atomic.LoadUint32(addr) }
+
+//go:norace
+func LoadUint64(addr *uint64) uint64 { ld(addr); return atomic.LoadUint64(addr) }
+
+//go:norace
+func StoreInt32(addr *int32, v int32) { pt(addr); atomic.StoreInt32(addr, v) }
+
+//go:norace
+func StoreInt64(addr *int64, v int64) { pt(addr); atomic.StoreInt64(addr, v) }
+
+//go:norace
+func StoreUint32(addr *uint32, v uint32) { pt(addr); atomic.StoreUint32(addr, v) }
+
+//go:norace
+func StoreUint64(addr *uint64, v uint64) { pt(addr); atomic.StoreUint64(addr, v) }
+
+//go:norace
+func SwapInt32(addr *int32, v int32) int32 { pt(addr); return atomic.SwapInt32(addr, v) }
+
+//go:norace
+func SwapInt64(addr *int64, v int64) int64 { pt(addr); return atomic.SwapInt64(addr, v) }
+
+//go:norace
 func SwapUint32(addr *uint32, v uint32) uint32 { pt(addr); return atomic.SwapUint32(addr, v) }
+
+//go:norace
 func SwapUint64(addr *uint64, v uint64) uint64 { pt(addr); return atomic.SwapUint64(addr, v) }
+
+//go:norace
 func CompareAndSwapInt32(addr *int32, o, n int32) bool {
 	pt(addr)
 	return atomic.CompareAndSwapInt32(addr, o, n)
 }
+
+//go:norace
 func CompareAndSwapInt64(addr *int64, o, n int64) bool {
 	pt(addr)
 	return atomic.CompareAndSwapInt64(addr, o, n)
 }
+
+//go:norace
 func CompareAndSwapUint32(addr *uint32, o, n uint32) bool {
 	pt(addr)
 	return atomic.CompareAndSwapUint32(addr, o, n)
 }
+
+//go:norace
 func CompareAndSwapUint64(addr *uint64, o, n uint64) bool {
 	pt(addr)
 	return atomic.CompareAndSwapUint64(addr, o, n)
